@@ -53,6 +53,10 @@ BLE_TYPES = ("BluetoothGATTReadResponse", "BluetoothGATTWriteResponse", "Bluetoo
              "BluetoothDeviceClearCacheResponse", "BluetoothGATTGetServicesResponse", "BluetoothGATTGetServicesDoneResponse")
 
 
+# reason codes a proxy may report when a peripheral drops: every HCI / GATT status byte, the ESP-IDF 0x100+ range, and the ends of the int32 field
+DROP_REASONS = tuple(range(0, 0x48)) + (0x50, 0x80, 0x85, 0x8D, 0xFF, 0x100, 0x101, 0x102, 0x10F, 0x1FF, 0xFFFF, 2**31 - 1, -1, -(2**31))
+
+
 def exhaustive(tier: str) -> Any:
     if tier == "thorough":
         return ["all orderings of every 1-4 item subset of the 9-item reply alphabet, for each single operation and for pairs sharing an address"]
@@ -67,7 +71,7 @@ def build_msg(pb: Any, item: list[Any], ops: list[dict[str, Any]], n: int) -> An
     """item = [kind, op index | addr, ...] -> protobuf message the device sends."""
     kind = item[0]
     if kind == "conn":
-        return pb.BluetoothDeviceConnectionResponse(address=item[1], connected=bool(item[2]), mtu=23 + n, error=0 if item[2] else 8)
+        return pb.BluetoothDeviceConnectionResponse(address=item[1], connected=bool(item[2]), mtu=23 + n, error=(item[3] if len(item) > 3 else 0 if item[2] else 8))
     op = ops[item[1]]
     a, h, name = op["addr"], op.get("handle", H1), op["op"]
     if kind in ("T", "T_fa", "T_fh"):
@@ -486,6 +490,15 @@ def shard(ctx: Ctx) -> None:
                             one(ctx, {"ops": [base], "replies": [list(p) for p in perm], "answer_disconnect": idx % 2 == 0, "values": list(vals), "groups": [k]},
                                 "single-op-permutations-one-chunk")
     set_values(DEFAULT_VALUES)
+    # a connection drop with every reason code, for every operation (the text of the error is built from the code)
+    for oi, name in enumerate(OPS):
+        for reason in DROP_REASONS:
+            if not (ctx.thorough or name in ("write", "start_notify", "unpair", "get_services", "device_connect") or (reason + oi) % 4 == 1):
+                continue
+            idx += 1
+            if ctx.mine(idx):
+                base = {"op": name, "addr": A, "handle": H1}
+                one(ctx, {"ops": [base], "replies": [["conn", A, 0, reason]]}, "drop-reason-codes")
     cleanup_inside_state_callback(ctx)
     # cancellation of every operation at several instants, followed by matching traffic (leftover probe)
     for name in OPS:
